@@ -326,8 +326,15 @@ def r0516(model, rep, ck):
                         out.append((b.value, b.lineno))
                     if not returns and isinstance(b, ast.Assign) and any(isinstance(t, ast.Name) and t.id == p for t in b.targets):
                         out.append((b.value, b.lineno))
-            if isinstance(st, ast.IfExp) and none_test(st.test, p):
-                out.append((st.body, st.lineno))
+            # a conditional expression counts when its value is what replaces the parameter (assigned to it / returned by the helper)
+            holder = st.value if (isinstance(st, ast.Return) and returns) or (not returns and isinstance(st, ast.Assign) and any(
+                isinstance(t, ast.Name) and t.id == p for t in st.targets)) else None
+            if isinstance(holder, ast.IfExp) and none_test(holder.test, p):
+                out.append((holder.body, holder.lineno))
+            elif isinstance(holder, ast.IfExp) and isinstance(holder.test, ast.Compare) and len(holder.test.ops) == 1 and \
+                    isinstance(holder.test.ops[0], (ast.IsNot, ast.NotEq)) and none_test(ast.Compare(left=holder.test.left, ops=[ast.Is()],
+                                                                                                   comparators=holder.test.comparators), p):
+                out.append((holder.orelse, holder.lineno))
         return out
 
     for name, fi in sorted(arm.methods.items()):
@@ -340,7 +347,17 @@ def r0516(model, rep, ck):
                 if isinstance(c, ast.Call) and isinstance(c.func, ast.Attribute) and isinstance(c.func.value, ast.Name) and c.func.value.id == 'self' \
                         and len(c.args) == 1 and not c.keywords and isinstance(c.args[0], ast.Name) and c.args[0].id == p and c.func.attr not in seen_h:
                     h = arm.methods.get(c.func.attr)
-                    if h is not None and len(h.params) == 2:
+                    # a resolving helper hands its argument back when it is given one
+                    def hands_back(h_):
+                        q = h_.params[1]
+                        for r_ in walk_own(h_.node):
+                            if isinstance(r_, ast.Return) and r_.value is not None:
+                                v_ = r_.value
+                                if (isinstance(v_, ast.Name) and v_.id == q) or (isinstance(v_, ast.IfExp) and any(
+                                        isinstance(a_, ast.Name) and a_.id == q for a_ in (v_.body, v_.orelse))):
+                                    return True
+                        return False
+                    if h is not None and len(h.params) == 2 and hands_back(h):
                         seen_h.add(c.func.attr)
                         vals += [(v, ln, h) for (v, ln) in none_branch_values(h.node, h.params[1], True)]
             for v, ln, where in vals:
